@@ -9,6 +9,7 @@ PID = "C05"
 def run(tier: str, seed: int) -> Report:
     sc = c05.scope(tier)
     n = len(c05.catalog_rows())
+    nv = sum(len(m.variants) for m in O.doc_meaning().values())
     rep = Report(property_id=PID, level="other")
     rep.exhaustive = False
     rep.rule = (
@@ -16,16 +17,22 @@ def run(tier: str, seed: int) -> Report:
         "every combination of the operand grids num %r (is_inf/is_bad/is_nan also +-inf), int %r, bool %r, str %r, dates %r, datetimes, date strings, restricted to the method's documented domain "
         "(all pairs / triples for 2- and 3-argument methods; int / bool operands also as null-free int64 / bool columns); aggregators: project(group_by) over ALL groups of 1..%d rows over %r / %r; "
         "windowed methods: extend(partition_by) and ordered window methods: extend(partition_by, order_by) over the same groups (as sequences in window order); the whole-column sum: %d one-group tables. "
+        "In addition every method with a CONSTANT parameter (and every two-argument method, with a constant second operand) is run again as %d constant-parameter variants: "
+        "around decimals -2..2 and round/floor/ceil over the wider grid %r, powers with exponents 1/2/0/-1/0.5, binary operators and maximum/minimum/fmax/fmin with the constants -1/0/2.5, "
+        "%% // mod remainder with 1/2/3, coalesce of two columns (null with null) and with 0/-1.5, if_else/where with constant branches, is_in as list / singleton / other members / strings, "
+        "mapv without default / negative default / empty-string key, trimstr with five (start, stop) pairs, concat with constants, date formats other than the defaults, shift by 1/2/3/-1/-2, sums of the constants 0/2/-1. "
         "Backends: Pandas and SQLite when the catalog marks the row 'y', Polars whenever it does not raise; PostgreSQL not executable (skipped). "
         "A case is NONTRIVIAL iff the backend returned a value for that row/group and it was compared with doc_meaning (status ok or fail); raising / skipped / not-claimed cases are not."
-        % (n, O.NUM_GRID, O.INT_GRID, O.BOOL_GRID, O.STR_GRID, [str(d) for d in O.DATE_GRID[1:]], sc["max_group"], O.GROUP_GRIDS["num"], O.GROUP_GRIDS["bool"], sc["whole_column_tables"])
+        % (n, O.NUM_GRID, O.INT_GRID, O.BOOL_GRID, O.STR_GRID, [str(d) for d in O.DATE_GRID[1:]], sc["max_group"], O.GROUP_GRIDS["num"], O.GROUP_GRIDS["bool"], sc["whole_column_tables"], nv, O.NUMR_GRID[len(O.NUM_GRID):])
     )
-    rep.bounded_label = "bounded: %d catalogued methods x operand grids (7 numeric / 5 int / 3 bool / 4 str values per operand) / all groups <= %d rows x 3 backends" % (n, sc["max_group"])
+    rep.bounded_label = "bounded: %d catalogued methods + %d constant-parameter variants x operand grids (7-13 numeric / 5 int / 3 bool / 4-5 str values per operand) / all groups <= %d rows x 3 backends" % (n, nv, sc["max_group"])
     rep.assumptions = [
         "doc_meaning (cbc.oracles_b) is written from the Term.* docstrings, the catalog's expression column and the definitions the docstring sections point to (numpy routines.math: missing in -> missing out; "
         "pandas GroupBy reference: aggregates skip missing items; sql_model.py: 'destination semantics' for the sign of mod/remainder) -- never from the implementations",
         "where the documentation pins no value the method's domain is restricted and the restriction is listed in coverage.domain_restrictions; methods whose documentation pins no value at all "
         "(_count, _ngroup, _uniform, dayofweek, weekofyear) are listed in coverage.methods_without_comparable_documentation and not compared",
+        "constant parameters: an empty is_in list, an empty mapv dictionary and coalesce(None) cannot be written (the expression parser / builder raises), shift(0) is refused by the builder; "
+        "rounding of exact halves is not documented: for a half either neighbour is accepted (Either), every other value is pinned",
         "the sum over a group without non-null items may be 0 or null (documented destination convention, as in C01)",
         "all operand rows (groups) of a method are evaluated in ONE table per column layout; a table that makes a back end raise is re-run row by row (group by group) with the same column types",
         "PostgreSQLModel column of the catalog: no PostgreSQL server here, not executed",
